@@ -16,7 +16,7 @@ TEXT = {
          "5.C13"),
  "C04": ("whole-library simulation of k threads x m acquisitions mixing lock / trylock loops / timedlock (virtual deadlines), critical sections containing schedule points, yields and blocking calls (holder needs a third thread), 1..8 workers incl. one-worker runs; oracle = occupancy witness ==1, acquisition counts, trylock never blocks (no BLOCK probe) and reports EBUSY only if another thread was between lock and unlock during the call, termination under fair drain (no lost wake-up)", "5.C04"),
  "C05": ("whole-library simulation of monitor programs: bounded buffer with exact quotas, gate (N waiters + broadcast issued after all registered under the mutex), turnstile, signals into the void; oracle = produced multiset == consumed, broadcast releases all, no return from wait without a signal after entering, mutex-held witness right after wait returns, termination", "5.C05"),
- "C06": ("whole-library simulation of N in {1,2,3,4,7,8,16,33} participants x up to 20 rounds, one participant racing into the next round; oracle = arrivals[k]==N at every return from round k, exactly one serial-thread indicator per round, all return, barrier state 0 and destroy succeeds", "5.C06"),
+ "C06": ("whole-library simulation of N in {1,2,3,4,7,8,16,33} (occasionally a crowd of 63..1000) participants x up to 20 rounds, one participant racing into the next round; oracle = arrivals[k]==N at every return from round k, exactly one serial-thread indicator per round, all return, destroy succeeds", "5.C06"),
  "C07": ("whole-library simulation with N at the field-width boundaries (0..64), waiters arriving before/between/after decrements spread over several threads, late waiters; oracle = no wait returns before the N-th dec was issued, all waiters released, late wait does not block, termination", "5.C07"),
  "C08": ("whole-library simulation of the documented protocol (announce by CAS, then wait; signal after seeing the announcement) on 1..3 single-slot channels with up to 1000 rendez-vous; oracle = sequence numbers, wake-ups never exceed signals issued, wake-ups == signals at the end, termination (signal hands the waiter over)", "5.C08"),
  "C09": ("whole-library simulation of a single-slot mailbox with p producers, c consumers and plain lock/unlock readers; oracle = consumed multiset == produced, status under the lock is the one waited for, termination", "5.C09"),
@@ -43,8 +43,8 @@ NOTE = {
  "C11": "failure modes are input-driven (which keys hold values); destructor calls with a NULL value are tolerated; reads outside the key table are detected through their consequences",
  "C04": "EBUSY justification uses an over-approximation of 'held' (another thread between invoking lock and returning from unlock), so it cannot raise a false alarm; return value of unlock is not part of C04",
  "C05": "predicate loops everywhere (spurious wake-ups are only flagged in the scenario where the harness knows no signal was sent)",
- "C06": "N up to 33, rounds up to 20",
- "C07": "N up to 64 by real decrements; larger N only through init arithmetic",
+ "C06": "N up to 33 (crowds up to 1000 with <= 3 rounds), rounds up to 20",
+ "C07": "N up to 64 (occasionally up to 4097) by real decrements, up to 300 waiters; larger N only through init arithmetic",
  "C08": "only the documented announce-then-wait protocol is exercised",
  "C09": "reuses the mutex/cond schedule points",
  "C14": "controls are zero-initialised objects (MYTH_ONCE_INIT equivalent)",
